@@ -134,7 +134,7 @@ def run(ctx):
                   key=('S3', 'no-temporary-failure', s), site=ctx.site(creq, creq.node))
     # REKEY_SA for an unknown SPI -> ChildSaNotFound(spi, protocol of the notify)
     lookups = [(n, x) for n, x in common.nodes_calling(ctx, creq, g, common.calls_named('get_child_sa'))]
-    ctx.floor('S3 get_child_sa lookups in the responder negotiation', len(lookups), 1)
+    ctx.floor('the lookup of the CHILD_SA named by REKEY_SA in the responder negotiation', len(lookups), 1, rule='S3')
     for n, x in lookups:
         ctx.require(isinstance(n.ast, ast.Assign) and isinstance(n.ast.targets[0], ast.Name),
                     'unrecognised shape: get_child_sa result not bound to a local')
@@ -179,7 +179,7 @@ def run(ctx):
     rk = [n for n in g2.nodes if n.kind == 'stmt' and isinstance(n.ast, ast.Assign)
           and any(common.is_self_attr(t, ccr, 'state') for t in n.ast.targets)
           and common.state_name(n.ast.value) == 'REKEYED']
-    ctx.floor('S3 REKEYED assignment in process_create_child_sa_request', len(rk), 1)
+    ctx.floor('the transition to REKEYED in process_create_child_sa_request', len(rk), 1, rule='S3')
     for n in rk:
         arr = ts.states_at(ccr, n)
         ctx.check(arr <= {'ESTABLISHED'} and bool(arr), 'S3',
@@ -198,7 +198,7 @@ def run(ctx):
     for n in g.nodes:
         if n.kind == 'handler' and n.ast.type is not None:
             caught.append([src(e) for e in (n.ast.type.elts if isinstance(n.ast.type, ast.Tuple) else [n.ast.type])])
-    ctx.floor('S3 handlers in the responder negotiation', len(caught), 2)
+    ctx.floor('the refusal handlers of the responder negotiation', len(caught), 2, rule='S3')
     need = {'TsUnacceptable', 'NoProposalChosen', 'ChildSaNotFound', 'TemporaryFailure', 'InvalidKePayload'}
     first = set(caught[0]) if caught else set()
     ctx.check(need <= first, 'S3', 'CHILD_SA refusals %s are converted to their own notify (not deleted, not '
